@@ -114,7 +114,7 @@ func c07Judge(c *mon.Ctx, in *c07Input) {
 		opts = append(opts, interpreter.WithDebugger(d))
 	}
 	var err error
-	if !c.Try("interpreter.Engine.Execute["+in.Mode+"]", func() { err = interpreter.NewEngine().Execute(opts...) }) {
+	if !c.Try("interpreter.Engine.Execute["+in.Mode+"]", func() { err = theEngine(c).Execute(opts...) }) {
 		c.Count("C07:panicked:" + in.Mode)
 		return
 	}
